@@ -162,7 +162,7 @@ pub fn check(case: &Case, reg: &qrun::Registry) -> Result<Facts, (String, String
     let mut cfgs: Vec<(usize, usize, Vec<u8>)> = vec![(1, 1000, vec![])];
     cfgs.extend(case.cfgs.iter().map(|(w, qi, s)| (*w as usize, QUANTA[*qi as usize % QUANTA.len()], s.clone())));
     for (workers, q, schedule) in cfgs {
-        let cfg = SimCfg { workers, quanta: vec![q], schedule: schedule.clone(), max_moves: 600_000 };
+        let cfg = SimCfg { workers, quanta: vec![q], schedule: schedule.clone(), max_moves: 600_000, env_slow: 0 };
         let mut shadow: Shadow = vec![BTreeMap::new(); workers];
         let mut hf = HeapFacts::default();
         let run = sim::run_program(&bc, cfg, reg, None, |s, m| match m {
@@ -337,7 +337,7 @@ pub fn replay(payload: &serde_json::Value) -> Result<(), String> {
     for (workers, q, schedule) in cfgs {
         let mut shadow: Shadow = vec![BTreeMap::new(); workers];
         let mut hf = HeapFacts::default();
-        let run = sim::run_program(&bc, SimCfg { workers, quanta: vec![q], schedule, max_moves: 600_000 }, &reg, None, |s, m| match m {
+        let run = sim::run_program(&bc, SimCfg { workers, quanta: vec![q], schedule, max_moves: 600_000, env_slow: 0 }, &reg, None, |s, m| match m {
             Move::Worker { i, .. } => heap_invariant(s, *i, &mut shadow, &mut hf),
             _ => Ok(()),
         });
